@@ -1,8 +1,8 @@
 #!/venv/bin/python
 """Run the rules against mutated copies of /repo's current working tree.
 
-Mutants: (1) /verif/seeded/<id>/patch.diff, (2) while a build session runs, /tmp/seed/*/out/m*/patch.diff,
-(3) the reverse of every `fix:` commit of /repo (the defect comes back).
+Mutants: `seeded` /verif/seeded/<id>/patch.diff; `unfix` the reverse of every `fix:` commit of /repo (the defect comes
+back); `pending:<dir>` the changes of a round that is not ingested yet (<dir>/<Cxx>/out/<id>/patch.diff).
 Each mutant is applied to a scratch copy (trees/ + treetools) under mkdtemp, removed afterwards.
 Informational: measures the checker, never decides a property.
 """
@@ -28,22 +28,13 @@ def mutants(which):
     if 'seeded' in which:
         for d in sorted(glob.glob(os.path.join(os.path.dirname(HERE), 'seeded', '*', 'patch.diff'))):
             ms.append(('seeded/' + os.path.basename(os.path.dirname(d)), d, False))
-    if 'tmp' in which:
-        for d in sorted(glob.glob('/tmp/seed/*/out/m*/patch.diff')):
-            parts = d.split('/')
-            ms.append(('tmp/%s-%s' % (parts[3], parts[5]), d, False))
-    if 'seed3x' in which:
-        for d in sorted(glob.glob('/tmp/seed3/*/out/[mr]*/patch.diff')):
-            parts = d.split('/')
-            ms.append(('seed3/%s-%s' % (parts[3], parts[5]), d, False))
-    if 'seed5x' in which:
-        for d in sorted(glob.glob('/tmp/seed5/*/out/[mr]*/patch.diff')):
-            parts = d.split('/')
-            ms.append(('seed5/%s-%s' % (parts[3], parts[5]), d, False))
-    if 'seed9' in which:
-        for d in sorted(glob.glob('/tmp/seed9/*/out/[mr]*/patch.diff')):
-            parts = d.split('/')
-            ms.append(('seed9/%s-%s' % (parts[3], parts[5]), d, False))
+    # changes of a round that is not ingested yet: `pending:/tmp/seed9` reads <dir>/<Cxx>/out/<id>/patch.diff
+    for w in which:
+        if w.startswith('pending:'):
+            base = w.split(':', 1)[1].rstrip('/')
+            for d in sorted(glob.glob(base + '/*/out/[mr]*/patch.diff')):
+                parts = d.split('/')
+                ms.append(('%s/%s-%s' % (os.path.basename(base), parts[-4], parts[-2]), d, False))
     if 'unfix' in which:
         for h, s in fix_commits():
             ms.append(('unfix/%s %s' % (h, s[:60]), h, True))
@@ -91,7 +82,7 @@ def run_one(m):
 
 
 def main():
-    which = sys.argv[1:] or ['seeded', 'tmp', 'unfix']
+    which = sys.argv[1:] or ['seeded', 'unfix']
     verbose = os.environ.get('V')
     ms = mutants(which)
     with Pool(min(16, max(1, len(ms)))) as pool:
